@@ -163,12 +163,18 @@ impl<T, E> Write<Result<T, E>> {
 pub unsafe trait DerefWrite: Deref {}
 
 // SAFETY: All these types have pure & non-GC-traversing Deref impls
-unsafe impl<T: ?Sized> DerefWrite for &T {}
+//
+// `Box<T>` and `Vec<T>` own their pointee exclusively, so the write barrier that was triggered on
+// the object holding them also covers the pointee. `&T`, `Rc<T>` and `Arc<T>` may *share* their
+// pointee with other GC'd objects that did not receive a write barrier, so a `Write` may only be
+// projected through them when the pointee can never hold `Gc` pointers, i.e. when it is `'static`
+// (this is the same argument as for `Write::from_static`).
+unsafe impl<T: ?Sized + 'static> DerefWrite for &T {}
 unsafe impl<T: ?Sized> DerefWrite for alloc::boxed::Box<T> {}
 unsafe impl<T> DerefWrite for Vec<T> {}
-unsafe impl<T: ?Sized> DerefWrite for alloc::rc::Rc<T> {}
+unsafe impl<T: ?Sized + 'static> DerefWrite for alloc::rc::Rc<T> {}
 #[cfg(target_has_atomic = "ptr")]
-unsafe impl<T: ?Sized> DerefWrite for alloc::sync::Arc<T> {}
+unsafe impl<T: ?Sized + 'static> DerefWrite for alloc::sync::Arc<T> {}
 
 /// Types which preserve write barriers when indexed.
 ///
